@@ -22,6 +22,12 @@ Qed.
 Lemma inv_le_inv a b : 0 < a -> a <= b -> / b <= / a.
 Proof. intros Ha Hab. apply Rinv_le_contravar; assumption. Qed.
 
+(* `reflexivity` when the source is written as today; the fallbacks tolerate re-associated / re-ordered products *)
+Ltac same_formula :=
+  first [ reflexivity
+        | cbv zeta; repeat match goal with |- context [Req_EM_T ?a ?b] => destruct (Req_EM_T a b) end;
+          first [reflexivity | ring | (field; lra) | (f_equal; first [ring | field; lra])] ].
+
 Section EN.
 Variables E K n Kp : R.
 Hypothesis HE : 0 < E.
@@ -36,10 +42,13 @@ Notation compl := (ro_tangential_compliance E K n).
 Notation f := (en_stress_implicit E K n Kp).
 Notation f2 := (en_stress_secondary_implicit E K n Kp).
 
+Lemma Kp_pos : 0 < Kp.
+Proof. lra. Qed.
+
 (* -------- the generated equation is eq. 2.5-45:  f(s; L) = eps(s) - L/s * K_p * eps(L/K_p) *)
 Lemma en_f_unfold s L :
   f s L = eps s - (if Req_EM_T s 0 then 1 else L / s) * Kp * eps (L / Kp).
-Proof. reflexivity. Qed.
+Proof. pose proof Kp_pos. unfold en_stress_implicit, en_neuber_strain, en_e_star. same_formula. Qed.
 
 Lemma en_f_nz s L : s <> 0 -> f s L = eps s - L / s * Kp * eps (L / Kp).
 Proof. intros H. rewrite en_f_unfold. destruct (Req_EM_T s 0); [contradiction|reflexivity]. Qed.
@@ -67,9 +76,6 @@ Proof. apply (C16.ro_strain_odd E K n). Qed.
 
 Lemma eps_pos_form s : 0 < s -> eps s = s / E + Rpower (s / K) (1 / n).
 Proof. intros H. apply C16.ro_strain_pos; assumption. Qed.
-
-Lemma Kp_pos : 0 < Kp.
-Proof. lra. Qed.
 
 (* the Neuber hyperbola constant  c(L) = L * K_p * e_star(L) *)
 Lemma en_c_nonneg L : 0 <= L -> 0 <= L * Kp * eps (L / Kp).
@@ -538,10 +544,10 @@ Notation M := (sb_middle_term E K n Kp).
 Notation N := (sb_neuber_strain E K n Kp).
 
 Lemma sb_F_unfold s L : F s L = eps s / (M s L * N s L) - 1.
-Proof. reflexivity. Qed.
+Proof. unfold sb_stress_implicit. same_formula. Qed.
 
 Lemma sb_U_unfold s L : U s L = PI / 2 * (((if Req_EM_T s 0 then 1 else L / s) - 1) / (Kp - 1)).
-Proof. reflexivity. Qed.
+Proof. unfold sb_u_term. same_formula. Qed.
 
 Lemma sb_M_unfold s L :
   M s L = (if Req_EM_T (U s L) 0 then 1 else 2 / (U s L) ^ 2)
@@ -550,7 +556,7 @@ Lemma sb_M_unfold s L :
 Proof. reflexivity. Qed.
 
 Lemma sb_N_unfold s L : N s L = (if Req_EM_T s 0 then 1 else L / s) * Kp * eps (L / Kp).
-Proof. reflexivity. Qed.
+Proof. unfold sb_neuber_strain, sb_e_star. same_formula. Qed.
 
 (* -------- joint negation of stress and load leaves the equation unchanged: roots for -L are the negated roots for L *)
 Lemma sb_U_neg s L : U (- s) (- L) = U s L.
